@@ -293,8 +293,12 @@ def present(inst, fmt, desig, rng):
             f = sympy.exp if extra["f"] == "exp" else sympy.cos
             expr = expr + f(syms[0]) * syms[1] * implrun.to_sympy(extra["C"])
         ham = sympy.Matrix(expr)
-        kw["symbols"] = syms
         info["syms"] = syms
+        # symbols=None: all free symbols are perturbative, in the iteration order of a set (the
+        # library's order is then read off the first-order elements); else the explicit list
+        info["symmode"] = "none" if rng.random() < 0.35 else "explicit"
+        if info["symmode"] == "explicit":
+            kw["symbols"] = syms
     elif fmt == "blocks":
         ham = {n: [[conv(gq.block(M, pos[i], pos[j]), vt) for j in range(nb)] for i in range(nb)] for n, M in H.items()}
     elif fmt == "series":
@@ -326,11 +330,34 @@ def corder(n):
     return "[%s]" % "; ".join("%d%%nat" % x for x in n)
 
 
-def named_poly(ranks, ids):
-    """Coq: poly_in (resolve_symbols <user order> []) Q with Q keyed by the exponent of each name rank."""
+def named_poly(ranks, ids, free=None):
+    """Coq: poly_in (resolve_symbols <given> <free order>) Q with Q keyed by the exponent of each name
+    rank.  free=None: the explicit list (the user's order); else symbols=None and the library's
+    set-iteration order `free`."""
     arms = "".join("if %s then %d%%Z else " % (" && ".join("(pw %d%%nat =? %d%%nat)%%nat" % (ranks[p], e) for p, e in enumerate(n)) or "true", ids[n])
                    for n in sorted(ids))
-    return "(poly_in ZVals (resolve_symbols [%s] []) (fun pw => %s0%%Z))" % ("; ".join("%d%%nat" % r for r in ranks), arms)
+    given = ranks if free is None else []
+    return "(poly_in ZVals (resolve_symbols [%s] [%s]) (fun pw => %s0%%Z))" % (
+        "; ".join("%d%%nat" % r for r in given), "; ".join("%d%%nat" % r for r in (free or [])), arms)
+
+
+def lib_order(series_list, nb, syms, nparam):
+    """symbols=None: which parameter the q-th index of the library counts, read off the symbols in
+    the first-order elements.  None if it cannot be determined."""
+    perm = []
+    for q in range(nparam):
+        e = tuple(int(a == q) for a in range(nparam))
+        found = set()
+        for S in series_list:
+            for i in range(nb):
+                for j in range(nb):
+                    v = S[(i, j) + e]
+                    if isinstance(v, (sympy.MatrixBase, sympy.Expr)):
+                        found |= set(v.free_symbols) & set(syms)
+        if len(found) != 1:
+            return None
+        perm.append(syms.index(found.pop()))
+    return perm if sorted(perm) == list(range(nparam)) else None
 
 
 def model_term(inst, fmt, desig, info, queries):
@@ -375,7 +402,7 @@ def model_term(inst, fmt, desig, info, queries):
     elif fmt == "expr":
         # the polynomial by named symbols (ranks in the name order); the explicit symbols list in
         # the user's order decides which index counts which symbol
-        c = "(@CExpr ZVals %d%%nat %s)" % (nparam, named_poly(info["ranks"], {n: ids[n] for n in H}))
+        c = "(@CExpr ZVals %d%%nat %s)" % (nparam, named_poly(info["ranks"], {n: ids[n] for n in H}, free=info.get("lib_ranks")))
     else:
         raise ValueError(fmt)
     if desig == "indices":
@@ -402,17 +429,25 @@ def observe_otbs(inst, fmt, desig, rng):
     with warnings.catch_warnings():
         warnings.simplefilter("ignore")
         S = operator_to_BlockSeries(ham, hermitian=inst["hermitian"], **kw)
+        syms_lib, perm = info["syms"], None
+        if fmt == "expr" and info.get("symmode") == "none":
+            perm = lib_order([S], nb, info["syms"], inst["nparam"])
+            if perm is None:
+                return None
+            syms_lib = [info["syms"][p_] for p_ in perm]
+            info["lib_ranks"] = [info["ranks"][p_] for p_ in perm]
         for n in orders:
+            n_lib = tuple(n) if perm is None else tuple(n[p_] for p_ in perm)
             for i in range(nb):
                 for j in range(nb):
-                    v = S[(i, j) + tuple(n)]
-                    v, ok = strip_symbols(v, info["syms"] if fmt == "expr" else None, n)
+                    v = S[(i, j) + n_lib]
+                    v, ok = strip_symbols(v, syms_lib if fmt == "expr" else None, n_lib)
                     if not ok:
-                        problems.append("element %s is not coefficient * monomial" % ((i, j) + tuple(n),))
-                    queries.append((tuple(n), i, j, implrun.from_value(v, (sizes[i], sizes[j]))))
+                        problems.append("element %s is not coefficient * monomial" % ((i, j) + n_lib,))
+                    queries.append((n_lib, i, j, implrun.from_value(v, (sizes[i], sizes[j]))))
         names = S.dimension_names
     want = tuple(info["syms"] or ())
-    if fmt == "expr" and tuple(names or ()) != want:
+    if fmt == "expr" and info.get("symmode") == "explicit" and tuple(names or ()) != want:
         problems.append("dimension_names %s, expected %s" % (names, want))
     if fmt == "mono":
         # operator_to_BlockSeries does not forward the derived symbols (dimension_names stay
@@ -524,16 +559,25 @@ def run_bd(inst, fmt, desig, rng, N):
     sizes = [sum(1 for s in sub if s == b) for b in range(nb)]
     pos = [[k for k in range(len(sub)) if sub[k] == b] for b in range(nb)]
     out = {}
+    if fmt == "expr" and info.get("symmode") == "explicit" and inst["nparam"] == 1 and rng.random() < 0.5:
+        kw["symbols"] = kw["symbols"][0]       # a single Symbol instead of a list
     with warnings.catch_warnings():
         warnings.simplefilter("ignore")
         res = block_diagonalize(ham, hermitian=inst["hermitian"], fully_diagonalize=implrun.build_fully(inst), **kw)
+        syms_lib, perm = info["syms"], None
+        if fmt == "expr" and info.get("symmode") == "none":
+            perm = lib_order(list(res[:2]), nb, info["syms"], inst["nparam"])
+            if perm is None:
+                return None
+            syms_lib = [info["syms"][p_] for p_ in perm]
         for name, S in zip(("H_tilde", "U", "Uinv"), res):
             for n in gq.orders_upto(inst["nparam"], N):
+                n_lib = tuple(n) if perm is None else tuple(n[p_] for p_ in perm)
                 for i in range(nb):
                     for j in range(nb):
-                        v = S[(i, j) + tuple(n)]
+                        v = S[(i, j) + n_lib]
                         if fmt == "expr":
-                            v, ok = strip_symbols(v, info["syms"], n)
+                            v, ok = strip_symbols(v, syms_lib, n_lib)
                             if not ok:
                                 return dict(error="element %s %s is not coefficient * monomial" % (name, (i, j) + tuple(n)))
                         X = implrun.from_value(v, (sizes[i], sizes[j]))
